@@ -192,6 +192,132 @@ def flag_rows(ctx, lean_info=None):
     s.finish()
 
 
+def _file_mono_case(case):
+    """scan a tree, add ONE import statement to one file, scan again (same options): modules and hierarchy stay, imports
+    only grow, a passing should rule keeps passing and a failing should_not rule keeps failing (Pta.C12.scan_add_statement_*)"""
+    import random as _random
+
+    from .. import scan_common as sc
+    from ..impl import Rule, err_kind, get_evaluable_architecture, graph_snapshot
+
+    tree, tree2, mp, lim, seed = case
+    rng = _random.Random(seed)
+    kw = {} if lim is None else {"level_limit": lim}
+    out = {"rules": []}
+
+    def scan(t):
+        with sc.write_project(t) as proj:
+            try:
+                ev = get_evaluable_architecture(proj.path("proj"), proj.path(mp), **kw)
+            except Exception as e:  # noqa: BLE001
+                return None, "ERR:" + err_kind(e)
+            return ev, graph_snapshot(ev)
+
+    ev1, g1 = scan(tree)
+    ev2, g2 = scan(tree2)
+    if ev1 is None or ev2 is None:
+        out["scan"] = (g1 if ev1 is None else "ok", g2 if ev2 is None else "ok")
+        return out
+    out["nodes_equal"] = g1[0] == g2[0] and g1[2] == g2[2]
+    out["lost"] = sorted(set(g1[1]) - set(g2[1]))
+    out["gained"] = sorted(set(g2[1]) - set(g1[1]))
+    nodes = list(g1[0])
+    for _ in range(8):
+        a, b = rng.choice(nodes), rng.choice(nodes)
+        if a == b:
+            continue
+        verb, how = rng.choice(["should", "should_not"]), rng.choice(["import_modules_that", "be_imported_by_modules_that",
+                                                                        "import_modules_except_modules_that", "be_imported_by_modules_except_modules_that"])
+        sub = rng.random() < 0.25
+
+        def outcome(ev):
+            r = Rule().modules_that()
+            r = r.are_sub_modules_of(a) if sub else r.are_named(a)
+            r = getattr(getattr(r, verb)(), how)().are_named(b)
+            try:
+                r.assert_applies(ev)
+                return "PASS"
+            except AssertionError:
+                return "FAIL"
+            except Exception as e:  # noqa: BLE001
+                return "ERR:" + err_kind(e)
+
+        out["rules"].append((verb, how, "sub" if sub else "named", a, b, outcome(ev1), outcome(ev2)))
+    return out
+
+
+def file_monotone_stream(ctx, stream, n):
+    from .. import scan_common as sc
+    from ..core import pmap
+
+    rng = ctx.rng("file-mono")
+    cases = []
+    while len(cases) < n:
+        tree = sc.gen_tree(rng, extra_files=False)
+        sc.fill_sources(rng, tree, externals=True)
+        files = sorted(p for p in tree if p.endswith(".py"))
+        if not files:
+            continue
+        f = rng.choice(files)
+        items = sc.gen_imports(rng, tree, f, externals=True, n=1)
+        if not items:
+            continue
+        chain, st = items[0]
+        add = sc.place(st, chain)
+        tree2 = dict(tree)
+        body = tree[f]
+        # the new statement goes to the front, to the end, or between two existing top-level chunks: which import of a file
+        # is converted first must not matter
+        lines = body.split("\n")
+        cut = rng.choice([1, len(lines) - 1, rng.randint(1, max(1, len(lines) - 1))])
+        while cut < len(lines) - 1 and (lines[cut].startswith((" ", "\t", "else", "elif", "except", "finally", "case")) or not lines[cut]):
+            cut += 1
+        tree2[f] = "\n".join(lines[:cut]) + "\n" + add + "\n".join(lines[cut:])
+        try:
+            import ast as _ast
+
+            _ast.parse(tree2[f])
+        except SyntaxError:
+            tree2[f] = body + add
+        dirs = sorted(p for p, v in tree.items() if v is None)
+        mp = "proj" if rng.random() < 0.7 else rng.choice(dirs)
+        lim = rng.choice([None, None, 1, 1, 2, 3])
+        cases.append((tree, tree2, mp, lim, rng.randrange(1 << 30)))
+    res = pmap(_file_mono_case, cases, ctx.jobs, chunk=10)
+    for (tree, tree2, mp, lim, _), out in zip(cases, res):
+        stream.evaluations += 1
+        stream.count(f"limit:{lim}")
+        if "scan" in out:
+            stream.count("scan-error")
+            if out["scan"][0] != "ok" and out["scan"][1] == "ok":
+                ctx.violations.append({"kind": "property-violation", "what": "adding an import statement makes a failing scan succeed",
+                                       "files": tree, "files_after": tree2, "module_path": mp, "level_limit": lim})
+            continue
+        bad = None
+        if not out["nodes_equal"]:
+            bad = "adding an import statement (external libraries excluded) changes the modules or the hierarchy"
+        elif out["lost"]:
+            bad = f"adding an import statement removes imports from the architecture: {out['lost'][:4]}"
+        if out["gained"]:
+            stream.nontrivial.add(digest((sorted(tree2.items()), mp, lim)))
+        for verb, how, kind, a, b, v1, v2 in out["rules"]:
+            stream.count(f"{verb}:{v1}->{v2}")
+            if bad:
+                break
+            if v1.startswith("ERR") or v2.startswith("ERR"):
+                if v1 != v2:
+                    bad = f"rule error changes when an import statement is added: {verb} {how} {kind} {a} / {b}: {v1} -> {v2}"
+            elif verb == "should" and v1 == "PASS" and v2 != "PASS":
+                bad = f"a passing 'should' rule fails after an import statement was added: {kind} {a} should {how} {b}"
+            elif verb == "should_not" and v1 == "FAIL" and v2 != "FAIL":
+                bad = f"a failing 'should not' rule passes after an import statement was added: {kind} {a} should_not {how} {b}"
+        if bad:
+            ctx.violations.append({"kind": "property-violation", "what": bad, "files": tree, "files_after": tree2, "module_path": mp,
+                                   "level_limit": lim, "imports_lost": out["lost"], "imports_gained": out["gained"]})
+            if len(ctx.violations) >= 3:
+                return
+
+
 def run(ctx: Ctx):
     run_witnesses(ctx)
     flag_rows(ctx)
@@ -226,6 +352,11 @@ def run(ctx: Ctx):
                 insts.extend(instances(rng, nodes, gen.random_imports(rng, nodes, 10)))
             run_instances(ctx, s, insts)
             done += 1000
+        s.finish()
+    if not ctx.violations:
+        s = Stream(ctx, "monotonicity at file level: one import statement added to one file of a scanned tree (any position, any form, "
+                        "also names that are not modules), with and without a level limit (Pta.C12.scan_add_statement_monotone)")
+        file_monotone_stream(ctx, s, ctx.size(500, 8000))
         s.finish()
     from ..rules_common import reuse_stream
 
